@@ -40,5 +40,5 @@ Corruptions(ts) ==
 Total == \A c \in Corruptions(Toks(d)) : Class(c.ts) \in {"ok", "err", "eof"}
 Emit == PrintT(ToJson([f |-> "tok", cs |-> SetToSeq({[op |-> c.op, ts |-> c.ts, cls |-> Class(c.ts)] : c \in Corruptions(Toks(d))})]))
 N(l) == NM("", l)
-cAlpha == [names |-> {N(<<"a">>), N(<<"b">>), NM("p", <<"a">>)}, anames |-> {N(<<"x">>)}, avals |-> {<<"1">>}, texts |-> {<<"t">>, <<"\n">>}, maxattrs |-> 1, comments |-> FALSE]
+cAlpha == [names |-> {N(<<"a">>), N(<<"~", "B">>), NM("p", <<"a">>)}, anames |-> {N(<<"x">>)}, avals |-> {<<"1">>}, texts |-> {<<"t">>, <<"\n">>}, maxattrs |-> 1, comments |-> FALSE]
 =============================================================================
